@@ -18,6 +18,7 @@ var Registry = map[string]func(*core.Run){
 	"C16": C16,
 	"C17": C17,
 	"C18": C18,
+	"C19": C19,
 	"C20": C20,
 	"C04": C04,
 	"C05": C05,
